@@ -174,8 +174,11 @@ Mutated(a, args, t2, new) ==
   /\ zl' = IF a = "Delete" THEN zl \cup UNION {{<<y, x>> : x \in LinkTargets(tree, y)} : y \in Sub(tree, args.t)} ELSE zl
   /\ retained' = IF new # 0 THEN Append(retained, new) ELSE retained
   /\ nextEid' = IF new # 0 THEN nextEid + 1 ELSE nextEid
-  /\ gen' = IF (a \in {"Delete", "RemoveLink", "DeleteDims"} \/ (a = "SetOne" /\ tree[args.p].one[args.slot] # NONE)) /\ gen < MaxGen
-             THEN gen + 1 ELSE gen
+  \* churn: something that existed was taken away (a delete that also takes links of OTHER entities away counts twice, so that
+  \* histories in which a link was set and then lost through a cascade are told apart from those that never had it)
+  /\ gen' = LET inc == (IF a \in {"Delete", "RemoveLink", "DeleteDims"} \/ (a = "SetOne" /\ tree[args.p].one[args.slot] # NONE) THEN 1 ELSE 0)
+                      + (IF a = "Delete" /\ \E y \in Live(tree) \ Sub(tree, args.t) : LinkTargets(tree, y) \cap Sub(tree, args.t) # {} THEN 1 ELSE 0)
+             IN IF gen + inc <= MaxGen THEN gen + inc ELSE MaxGen
   /\ UNCHANGED <<disk, diskOk, open, mode, ended, life>>
   /\ Record(Call(a, args, "ok", new))
 
@@ -628,7 +631,11 @@ ObsOf(t, o, m, r, lb, z) ==
                             ELSE IF Pinned(t, r, z, r[i]) THEN "pinned" ELSE "no"]]]
 Obs == ObsOf(tree, open, mode, retained, limbo, zl)
 
-View == <<tree, disk, diskOk, open, mode, dirty, nextEid, retained, limbo, zl, ended, gen, life>>
+\* what a handle kept by the client could remember from earlier calls: every single-link value that was ever set through it
+\* in this session.  Not a state component of the design (a correct handle remembers nothing), but in the churn-focused
+\* universes (MaxGen >= 2) histories that differ in it are explored separately, so that each of them reaches the reopen.
+SeenOne(h) == {<<h[i].args.p, h[i].args.slot, h[i].args.t>> : i \in {j \in 1..Len(h) : h[j].a = "SetOne" /\ h[j].res = "ok"}}
+View == <<tree, disk, diskOk, open, mode, dirty, nextEid, retained, limbo, zl, ended, gen, life, IF MaxGen >= 2 THEN SeenOne(hist) ELSE {}>>
 \* every emitted line is self-contained (history + step + expected observation), so a configuration prints
 \* only the transitions its property judges
 Emit == (/\ last'.a \in EmitActs /\ (EmitRes = "any" \/ last'.res = EmitRes)
